@@ -52,13 +52,25 @@ def hoursToMonthT (hiy : List Int) (hours : Rat) : Py Rat :=
 
 def hoursToMonth (hours : Rat) : Py Rat := hoursToMonthT hoursInYearHTM hours
 
-/-- Line-protocol commands:  `gtc <int>`  and  `htm <rat>`. -/
+/-- `OutputManager.get_hourly_loading_data`: `for hour, hour_load in enumerate(hourly_loadings)`:
+    one row `[month, day_in_month, hour_in_day, hour, hour_load]` per input load, in order (the loop
+    and the row expression are pinned from output.py in Gen/Report.lean). -/
+def loadingRows (loads : List Rat) : List (Int × Int × Int × Nat × Rat) :=
+  loads.zipIdx.map (fun qi => let t := gheTimeConvert (qi.2 : Int); (t.1, t.2.1, t.2.2, qi.2, qi.1))
+
+/-- `OutputManager.get_borehole_location_data`: one row `[x, y]` per selected coordinate, in order. -/
+def boreRows (coords : List (Rat × Rat)) : List (List Rat) := coords.map (fun c => [c.1, c.2])
+
+/-- Line-protocol commands:  `gtc <int>`,  `htm <rat>`  and  `loadrows <rat>…`. -/
 def cmd : List String → Option String
   | ["gtc", h] => some <| match h.toInt? with
       | some k => let (m, d, hr) := gheTimeConvert k; s!"{m} {d} {hr}"
       | none => "bad-arg"
   | ["htm", h] => some <| match parseRat? h with
       | some q => (match hoursToMonth q with | .ok v => showRat v | .error e => "raise " ++ e.name)
+      | none => "bad-arg"
+  | "loadrows" :: rest => some <| match rest.mapM parseRat? with
+      | some qs => " ; ".intercalate ((loadingRows qs).map (fun r => s!"{r.1} {r.2.1} {r.2.2.1} {r.2.2.2.1} {showRat r.2.2.2.2}"))
       | none => "bad-arg"
   | _ => none
 
